@@ -7,7 +7,8 @@ RULE = ("V: every element of CalcRemote.tla's lattice (8-bit abstract addresses:
         "boundaries, across the 64-bit word boundary), written as YAML, parsed and applied by the real code; distinct = "
         "(vector, profile). T: seeded random full-width cases judged by TLC (Trace_CalcRemote)")
 ASSUMPTIONS = [
-    "one range per family per configuration (the statement does not say which of two nested ranges wins)",
+    "one range per family per configuration (the statement does not say which of two nested ranges wins); a range may carry "
+    "several mask entries (twin vectors), each produces its own remote",
     "the result is observed as the peer's remote list after addCalculatedRemotes (no allow list, own networks disjoint) "
     "and by calling ApplyV4/ApplyV6 directly",
     "a calculated IPv6 remote that happens to be IPv4-mapped (::ffff:a.b.c.d) is handed out by the lighthouse unmapped; "
@@ -51,7 +52,7 @@ def run(ctx):
             elif not v['ret']:
                 ctx.violation('random:%s:return' % fam, 'addCalculatedRemotes(%s) returned %s, specification produces %d'
                               % (o['addr'], o['ret'], v['nwant']), o)
-    ctx.require_actions('ApplyV4', 'ApplyV6', 'produced:v4', 'produced:v6', 'not-produced:v4', 'not-produced:v6',
+    ctx.require_actions('ApplyV4', 'ApplyV6', 'produced:several-entries-of-one-range', 'produced:v4', 'produced:v6', 'not-produced:v4', 'not-produced:v6',
                         'refused-config', 'T:v4', 'T:v6')
 
 
